@@ -150,6 +150,18 @@ def self_recursive(f):
     return False
 
 
+def _about_key_only(c):
+    """the condition reads the level view / the key / locals only: nothing of the node (its subject, children, name, other members) and
+    no member function of it.  The tables enumerate node states, so a test of node state is a test both of whose outcomes occur; what holds
+    between the indices of a level view is an invariant of the key classes that the tables do not know"""
+    if c is None: return False
+    for x in c.walk():
+        if x.k == 'this': return False
+        if x.k == 'member' and x.field and (x.d.get('class') or '').startswith(NODE): return False
+        if x.k == 'call' and x.callee_in_root and strip_targs(x.calleeq or '').startswith(NODE + '::'): return False
+    return True
+
+
 def _children_empty_decided(P):
     """the path tested m_children.empty() and found it true"""
     for c_, v_, h_ in P.decisions:
@@ -747,7 +759,7 @@ class RouterAnalysis:
                 for P, E in res:
                     if P.end in ('loop',): continue
                     self.add = self.__class__.add.__get__(self)
-                    if matches and P.unknown_atoms:
+                    if matches and P.unknown_atoms and all(_about_key_only(c_) for c_ in P.unknown_atoms):
                         # the path was chosen by a condition the traversal tables know nothing about (a range guard on the level view): whether it can
                         # be taken is not followed, so what is missing on it is not a refutation
                         orig_add_ = self.add; ua_ = (P.unknown_atoms[0].text() or '')[:50]
@@ -809,7 +821,7 @@ class RouterAnalysis:
                 vals = set(); full = []; soft_ex = None
                 for P, E in run_paths(F, exf, dom):
                     if P.end == 'loop': continue
-                    if matches and P.unknown_atoms:
+                    if matches and P.unknown_atoms and all(_about_key_only(c_) for c_ in P.unknown_atoms):
                         soft_ex = P.unknown_atoms[0]; continue          # chosen by a condition outside the tables (a range guard on the level view): not judged
                     v = P.ret if isinstance(P.ret, bool) else ('any' if P.ret is not None else None)
                     vals.add(v)
